@@ -6,7 +6,7 @@
    and counts / output sizes stay within the declared capacities.  They are about [Fixed], the
    code after the proposed patches; the witnesses at the end show the pinned code faulting. *)
 From GmVerif Require Import Base.ListX Base.Bytes Codec.Der Codec.DerProofs Codec.SafetyProofs
-  Codec.Hex Codec.HexProofs Codec.Base64 Codec.Base64Proofs Codec.Base64Safety Codec.Time Codec.TimeProofs.
+  Codec.Hex Codec.HexProofs Codec.Base64 Codec.Base64Proofs Codec.Base64Safety Codec.Time Codec.TimeProofs Codec.Pkcs Codec.Pem Codec.PemProofs.
 Local Open Scope N_scope.
 
 Theorem C06_length_no_fault : forall inp, len_from_der inp <> Fault.
@@ -141,6 +141,27 @@ Theorem C06_base64_context_no_fault : forall (buf inp : list N) (rv : Z) (buf' o
   decode_update buf inp = (rv, buf', o) -> bufok buf -> bufok buf'.
 Proof. exact decode_update_bufok. Qed.
 Print Assumptions C06_base64_context_no_fault.
+
+(* ---- PEM reader: declared capacity, local 128-byte line buffer, no Fault *)
+Theorem C06_pem_read_no_fault : forall name inp maxlen, pem_read name inp maxlen <> Fault.
+Proof. exact pem_read_nofault. Qed.
+Print Assumptions C06_pem_read_no_fault.
+
+Theorem C06_pem_read_within_capacity : forall name inp maxlen d rest,
+  pem_read name inp maxlen = Ok (d, rest) -> len d <= maxlen.
+Proof. exact pem_read_capacity. Qed.
+Print Assumptions C06_pem_read_within_capacity.
+
+Theorem C06_pem_read_line_buffer : forall inp raw rest buf rv buf' o, len buf < 64 ->
+  fgets inp = Some (raw, rest) -> decode_update buf (chomp (cstr raw)) = (rv, buf', o) ->
+  len (chomp (cstr raw)) <= 79 /\ len o <= 105 /\ len buf' < 64 /\ (bufok buf -> bufok buf').
+Proof. exact pem_step_capacity. Qed.
+Print Assumptions C06_pem_read_line_buffer.
+
+Theorem C06_pem_read_consumes_prefix : forall name inp maxlen d rest,
+  pem_read name inp maxlen = Ok (d, rest) -> exists pre, inp = pre ++ rest.
+Proof. exact pem_read_rest_suffix. Qed.
+Print Assumptions C06_pem_read_consumes_prefix.
 
 (* ---- witnesses: the literal model of the pinned tree faults *)
 Theorem C06_refuted_oid_33_arcs :
